@@ -247,7 +247,10 @@ def mon_c04_c06(h, obs, which):
         if prop != which:
             return
         o = ones.get(tid) if tid else None
-        if o is not None and o.batch_rcpt and ("timed-out" in fp or "overwritten" in fp or "final-changed" in fp or "altered-by-timeout" in fp):
+        if tid is not None and tid in fee_failed:
+            # every later anomaly on this id stems from the record that survived the fee-failure revert
+            fp = f"{prop}/status-of-fee-failed-request"
+        elif o is not None and o.batch_rcpt and ("timed-out" in fp or "overwritten" in fp or "final-changed" in fp or "altered-by-timeout" in fp):
             fp = f"{prop}/unordered-source-receipt-not-removed"
         hits.append(Hit(fp, msg, detail=detail))
 
@@ -273,7 +276,7 @@ def mon_c04_c06(h, obs, which):
                         group_ids.add(tx.id)
                         continue
                     if o.status is not None:
-                        hit("C04", "C04/request-accepted-twice", f"request {tx.id} accepted again in block {b.h} while its status was {o.status}", b.op)
+                        hit("C04", "C04/request-accepted-twice", f"request {tx.id} accepted again in block {b.h} while its status was {o.status}", b.op, tid=tx.id)
                     o.status = 1 if rc.ret == "begin_failure" else 0
                     o.H = b.h
                     T = tx.timeout
@@ -286,7 +289,7 @@ def mon_c04_c06(h, obs, which):
                     nxt = EDGE.get((o.status, tx.typ))
                     if nxt is None:
                         fp = "C04/receipt-after-final" if o.status in (3, 4, 5) else "C04/receipt-off-protocol"
-                        hit("C04", fp, f"receipt '{tx.typ}' for {tx.id} accepted in block {b.h} while the protocol status was {o.status}", b.op)
+                        hit("C04", fp, f"receipt '{tx.typ}' for {tx.id} accepted in block {b.h} while the protocol status was {o.status}", b.op, tid=tx.id)
                     else:
                         o.status = nxt
                         if nxt in (3, 4):
@@ -304,7 +307,7 @@ def mon_c04_c06(h, obs, which):
                     src_chain = tid.split("-")[0].split(":")[1]
                     if listed.get(tid, []) != [src_chain]:
                         hit("C06", "C06/timeout-not-listed-at-deadline",
-                            f"{tid} accepted at {o.H} reached its timeout height {b.h} without a receipt but the block's timeout list has it for {listed.get(tid, [])}", b.raw)
+                            f"{tid} accepted at {o.H} reached its timeout height {b.h} without a receipt but the block's timeout list has it for {listed.get(tid, [])}", b.raw, tid=tid)
                     o.listed_at.append(b.h)
                 elif tid in listed:
                     why = "after-failure-receipt" if o.status == 4 else ("after-success-receipt" if o.status == 3 else f"status-{o.status}")
@@ -331,12 +334,9 @@ def mon_c04_c06(h, obs, which):
                         f"{tid} had reached final status {o.status} by an accepted receipt, yet the timeout mechanism moved it to BEGIN_ROLLBACK", st[3], tid=tid)
                     hit("C04", f"C04/final-status-overwritten/{o.status}->2",
                         f"{tid}: final status {o.status} was overwritten with BEGIN_ROLLBACK", st[3], tid=tid)
-                elif o.status is None and tid in fee_failed:
-                    hit("C04", "C04/status-of-fee-failed-request",
-                        f"GetStatus({tid}) = {val} although the request was rejected (FAILED: fee)", st[3])
                 else:
                     hit("C04", f"C04/status-query-mismatch/{o.status}-vs-{val}",
-                        f"GetStatus({tid}) = {val} but the accepted events lead to {o.status}", st[3])
+                        f"GetStatus({tid}) = {val} but the accepted events lead to {o.status}", st[3], tid=tid)
                 o.status = val   # resynchronise to avoid cascades
     return hits
 
